@@ -147,7 +147,7 @@ type redisEngine struct {
 	dir         string
 	bin         string
 	buildErr    string
-	emb         *gateway
+	embGW       *gateway
 	raft        *gateway
 	raftDB      *NoKV.DB
 	raftSvc     *kvService
@@ -156,6 +156,7 @@ type redisEngine struct {
 	seq         *respConn
 	seqAddr     string
 	infraReruns int
+	emb         *embSched
 	keySeq      int
 	stats       map[string]any
 }
@@ -238,14 +239,14 @@ func (e *redisEngine) embedded() (*gateway, error) {
 	if e.buildErr != "" {
 		return nil, fmt.Errorf("%s", e.buildErr)
 	}
-	if e.emb == nil {
+	if e.embGW == nil {
 		g, err := e.startGateway("-workdir", filepath.Join(e.dir, "emb"))
 		if err != nil {
 			return nil, err
 		}
-		e.emb = g
+		e.embGW = g
 	}
-	return e.emb, nil
+	return e.embGW, nil
 }
 
 func (e *redisEngine) raftGW() (*gateway, error) {
@@ -295,7 +296,10 @@ func (e *redisEngine) raftGW() (*gateway, error) {
 }
 
 func (e *redisEngine) close() {
-	for _, g := range []*gateway{e.emb, e.raft} {
+	if e.emb != nil {
+		e.emb.close()
+	}
+	for _, g := range []*gateway{e.embGW, e.raft} {
 		if g != nil && g.cmd.Process != nil {
 			_ = g.cmd.Process.Kill()
 		}
@@ -313,13 +317,101 @@ func (e *redisEngine) close() {
 }
 
 func (e *redisEngine) Rule() string {
-	return "C30: (a) one connection: INCRBY/DECRBY/SET NX/GET sequences compared with the model line by line; (b) stress: 8 connections hammer one counter with INCR/INCRBY/DECR (initial value 100), race INCRBY on counters that were deleted or have expired, and race SET NX on keys that are absent because never written / deleted / expired, against the real nokv-redis binary in embedded mode (every case) and against its raft backend over real Percolator stores (corpus witness + thorough tier); non-trivial = a stress line ran to completion with at least 2 connections"
+	return "C30: (a) one connection: INCRBY/DECRBY/SET NX/GET sequences compared with the model line by line; (b) stress: 8 connections hammer one counter with INCR/INCRBY/DECR (initial value 100), race INCRBY on counters that were deleted or have expired, and race SET NX on keys that are absent because never written / deleted / expired, against the real nokv-redis binary in embedded mode (every case) and against its raft backend over real Percolator stores (corpus witness + thorough tier); (c) embedded backend scheduled in-process on the real DB (oracle, watermarks, commit pipeline): read-modify-write commands spanning other clients' commits, long-lived read-only snapshots pinning and releasing the conflict history, prune-triggering commits on other keys, a parked commit pipeline; non-trivial = a stress line ran to completion with at least 2 connections, or a scheduled command met a conflict / waited behind a stalled commit"
 }
 
 func (e *redisEngine) Extra() map[string]any { return e.stats }
 
+// genSched: clients of the embedded backend scheduled step by step: read-modify-write commands
+// that span other clients' commits, read-only transactions that keep the oracle from pruning its
+// conflict history and then let go, commits on other keys (each one runs the prune), and - rarely,
+// it costs a bounded wait - a parked commit pipeline.
+func genSched(r *hlib.Rand) []string {
+	ops := []string{"e.reset"}
+	inTxn := [4]bool{}
+	readers := map[int]bool{}
+	n := 10 + r.Intn(25)
+	for step := 0; step < n; step++ {
+		switch x := r.Intn(100); {
+		case x < 30:
+			i := r.Intn(4)
+			if inTxn[i] {
+				ops = append(ops, fmt.Sprintf("e.commit %d", i))
+				inTxn[i] = false
+			} else {
+				if r.Chance(75) {
+					ops = append(ops, fmt.Sprintf("e.begin %d incr %d", i, r.Intn(21)-10))
+				} else {
+					ops = append(ops, fmt.Sprintf("e.begin %d setnx %d", i, 1+r.Intn(50)))
+				}
+				inTxn[i] = true
+			}
+		case x < 50:
+			// a complete command (begin + commit back to back)
+			i := r.Intn(4)
+			if !inTxn[i] {
+				ops = append(ops, fmt.Sprintf("e.begin %d incr %d", i, 1+r.Intn(9)), fmt.Sprintf("e.commit %d", i))
+			}
+		case x < 62:
+			j := r.Intn(2)
+			if readers[j] {
+				ops = append(ops, fmt.Sprintf("e.rclose %d", j))
+				readers[j] = false
+			} else {
+				ops = append(ops, fmt.Sprintf("e.ropen %d", j))
+				readers[j] = true
+			}
+		case x < 80:
+			ops = append(ops, "e.other")
+		case x < 90:
+			ops = append(ops, "e.get")
+		default:
+			ops = append(ops, "e.getnx")
+		}
+	}
+	for j := range readers {
+		if readers[j] {
+			ops = append(ops, fmt.Sprintf("e.rclose %d", j))
+		}
+	}
+	ops = append(ops, "e.other")
+	for i := range inTxn {
+		if inTxn[i] {
+			ops = append(ops, fmt.Sprintf("e.commit %d", i))
+		}
+	}
+	ops = append(ops, "e.get", "e.getnx")
+	return ops
+}
+
+// genStall: one client's commit owns its timestamp while the pipeline is parked; a second client
+// starts the same kind of command on the same key.
+func genStall(r *hlib.Rand) []string {
+	ops := []string{"e.reset"}
+	if r.Bool() {
+		ops = append(ops, "e.begin 0 incr 3", "e.commit 0")
+	}
+	cmd := func(i int) string {
+		if r.Bool() {
+			return fmt.Sprintf("e.begin %d incr %d", i, 1+r.Intn(5))
+		}
+		return fmt.Sprintf("e.begin %d setnx %d", i, 1+i)
+	}
+	c0 := cmd(0)
+	kind := strings.Fields(c0)[2]
+	c1 := fmt.Sprintf("e.begin 1 %s %d", kind, 7)
+	ops = append(ops, c0, "e.stall", "e.commit 0", c1, "e.unstall", "e.commit 1", "e.get", "e.getnx")
+	return ops
+}
+
 func (e *redisEngine) Gen(r *hlib.Rand, tier string) []string {
 	r = hlib.NewRand(r.U64() ^ seedMix)
+	switch x := r.Intn(100); {
+	case x < 45:
+		return genSched(r)
+	case x < 48:
+		return genStall(r)
+	}
 	ops := []string{"seq.reset"}
 	if r.Chance(25) {
 		ops[0] = "seq.reset backend=raft"
@@ -364,6 +456,9 @@ func (e *redisEngine) Nontrivial(ops, impl, model, spec []string) bool {
 	for i, op := range ops {
 		if (strings.HasPrefix(op, "stress.") || strings.HasPrefix(op, "sched.")) && !strings.HasPrefix(impl[i], "harness") {
 			return true
+		}
+		if strings.HasPrefix(op, "e.commit") && (impl[i] == "conflict" || impl[i] == "pending") {
+			return true // a scheduled command lost against (or waited behind) another client
 		}
 	}
 	return false
@@ -410,10 +505,27 @@ func (e *redisEngine) execOnce(ops []string) []string {
 	e.keySeq++
 	ctrKey, nxKey := fmt.Sprintf("seqctr%d", e.keySeq), fmt.Sprintf("seqnx%d", e.keySeq)
 	seqBackend := "embedded"
+	embStarted := false
+	defer func() {
+		if e.emb != nil && embStarted {
+			e.emb.unstall() // never leave the pipeline parked
+		}
+	}()
 	for i, op := range ops {
 		toks := strings.Fields(op)
 		if len(toks) == 0 {
 			out[i] = "bad-op"
+			continue
+		}
+		if strings.HasPrefix(toks[0], "e.") {
+			if e.emb == nil {
+				e.emb = newEmbSched()
+			}
+			if !embStarted {
+				e.emb.reset()
+				embStarted = true
+			}
+			out[i] = e.emb.exec(toks)
 			continue
 		}
 		if strings.HasPrefix(toks[0], "seq.") {
